@@ -63,4 +63,7 @@ MUTANTS = [
     m("c18-init-deps-fromkeys", "C18", "R7", ST, "            _dependencies = {name: set() for name in variables}", "            _dependencies = dict.fromkeys(variables, set())"),
     m("c18-init-deps-shared-comprehension", "C18", "R7", ST, "            _dependencies = {name: set() for name in variables}", "            empty = set()\n            _dependencies = {name: empty for name in variables}"),
     m("c18-twin-init-deps-renamed", "C18", None, ST, "            _dependencies = {name: set() for name in variables}", "            _dependencies = {var: set() for var in variables}", twin=True),
+    m("c18-miss-not-stored-readonly", "C18", "R4", ST, "                state._cache[key] = method(self, state)\n", "                val = method(self, state)\n                if state._read_only:\n                    return val\n                state._cache[key] = val\n", key="miss-not-stored"),
+    m("c18-twin-miss-stored-via-local", "C18", None, ST, "                state._cache[key] = method(self, state)\n", "                val = method(self, state)\n                state._cache[key] = val\n", twin=True),
+    m("c18-metric-bypasses-wrapper", "C18", "R2", S, "        return self._metric_matrix_class(\n            self.metric_func(state),\n            size=state.pos.shape[0],", "        return self._metric_matrix_class(\n            self._metric_func(state.pos),\n            size=state.pos.shape[0],", key="bypasses"),
 ]
